@@ -1089,7 +1089,9 @@ pub fn lwl(
         block.load(tmp.clone(), address);
 
         // clear the dst register by shifting left then right
-        let dst_expr = Expr::shl(dst.clone().into(), bits_to_clear.clone())?;
+        // the old value of rt: $zero reads as the constant 0
+        let old = get_register(detail.operands[0].reg())?.expression();
+        let dst_expr = Expr::shl(old, bits_to_clear.clone())?;
         let dst_expr = Expr::shr(dst_expr, bits_to_clear)?;
 
         // zero out the right bits in the loaded word
@@ -1139,8 +1141,9 @@ pub fn lwr(
         let temp = Expr::and(tmp.into(), mask.clone())?;
 
         // and out the bits we're about to set in dst
+        // (the old value of rt: $zero reads as the constant 0)
         let dst_expr = Expr::and(
-            dst.clone().into(),
+            get_register(detail.operands[0].reg())?.expression(),
             Expr::sub(expr_const(0xffff_ffff, 32), mask)?,
         )?;
 
